@@ -85,4 +85,9 @@ func TestLive(t *testing.T) {
 	if run.Counter("flush_faults_run") < 10 || run.Counter("recovery_faults_run") < 30 {
 		t.Fatalf("fault sweeps ran %d flush and %d recovery faults", run.Counter("flush_faults_run"), run.Counter("recovery_faults_run"))
 	}
+	// restart after a source fail-over, one case per mode
+	FailoverRestarts(run, FailoverOptions{NCases: 3, Workers: 3, Driver: d, Factory: NewStandalone})
+	if run.Counter("failover_restarts") < 6 {
+		t.Fatalf("fail-over restarts: %d", run.Counter("failover_restarts"))
+	}
 }
